@@ -4,7 +4,7 @@
    for every expression tree of any size.  Declarations and statements are decided by the round-trip search. *)
 From Coq Require Import List NArith Bool Arith.
 From Verif Require Import Base.Res Gen.GenTokens Model.Lexer Model.ExprParser Proofs.ExprParserProofs Proofs.ExprInstance.
-From Verif Require Model.StParser Model.StInstance Model.StRender Proofs.StExprProofs Proofs.StStmtProofs Proofs.StInstanceProofs Proofs.StRenderProofs Model.DeclParser Proofs.DeclProofs Proofs.DeclRenderProofs.
+From Verif Require Model.StParser Model.StInstance Model.StRender Proofs.StExprProofs Proofs.StStmtProofs Proofs.StInstanceProofs Proofs.StRenderProofs Model.DeclParser Proofs.DeclProofs Proofs.DeclRenderProofs Proofs.LibProofs Model.LibRender Proofs.LibRenderProofs.
 Import ListNotations.
 Close Scope N_scope.
 Open Scope nat_scope.
@@ -89,3 +89,27 @@ Proof. exact DeclRenderProofs.render_fbd_fixed_point. Qed.
 Theorem C10_negative_initial_value_refuted :
   StInstance.parse_fbd_tokens DeclRenderProofs.real_neg_render = StInstance.O2Rejected.
 Proof. exact DeclRenderProofs.render_negative_initial_value_refuted. Qed.
+
+(* Whole libraries: TYPE declarations (arrays, integer subranges, enumerations by values or of another enumeration, elementary
+   types with a constant default, late-bound names), function blocks and programs.  The renderer model writes every data type
+   declaration in a TYPE block of its own (as visit_data_type_declaration_kind does; compared with write_to_string token for
+   token on every run); the parser model reads the rendered library back as the same flat sequence of declarations
+   ([split_types]: one block per declaration -- the library itself has no blocks), and rendering that again gives the same
+   tokens.  [elem_ok] excludes the recorded gap (a negative bound or default is written '- 1') and what no text gives. *)
+Theorem C10_library_parse_render : forall es, Forall LibRenderProofs.elem_ok es ->
+  StInstance.parse_lib2_tokens (LibRender.render_lib2 es) = StInstance.O4Parsed (LibRender.split_types es).
+Proof. exact LibRenderProofs.parse_render_lib2. Qed.
+
+Theorem C10_library_fixed_point : forall es, Forall LibRenderProofs.elem_ok es ->
+  match StInstance.parse_lib2_tokens (LibRender.render_lib2 es) with
+  | StInstance.O4Parsed es' =>
+      LibRender.render_lib2 es' = LibRender.render_lib2 es /\ StInstance.parse_lib2_tokens (LibRender.render_lib2 es') = StInstance.O4Parsed es'
+  | _ => False
+  end.
+Proof. exact LibRenderProofs.render_lib2_fixed_point. Qed.
+
+(* without the guard: T : INT (-1..5) is written  T : INT (- 1.. 5 ) ;  which is rejected (the recorded finding) *)
+Theorem C10_negative_bound_refuted :
+  LibRender.render_lib2 LibRenderProofs.neg_bound_witness = LibRenderProofs.real_neg_bound_render /\
+  StInstance.parse_lib2_tokens LibRenderProofs.real_neg_bound_render = StInstance.O4Rejected.
+Proof. exact (conj LibRenderProofs.neg_bound_is_what_the_model_writes LibRenderProofs.render_negative_bound_refuted). Qed.
